@@ -98,7 +98,9 @@ PATHS = ['meta_set', 'meta_append', 'meta_extend', 'meta_add_item', 'meta_update
          # rows may carry tags for which no column is declared (yet): they are part of the grid all the same
          'append_undeclared', 'extend_undeclared', 'setitem_undeclared',
          # positions that list.insert clamps: a refused store must leave the grid as it was there too
-         'insert_negative', 'insert_beyond_end']
+         'insert_negative', 'insert_beyond_end',
+         # rows handed over as one-shot iterables
+         'extend_generator', 'iadd_iterator']
 
 
 # earlier activity of the same process (other grids, other versions): the gate of a grid must not depend on it.  Every
@@ -209,7 +211,8 @@ class GateSpec(H.Spec):
         for p in PATHS:
             if p in ('setitem', 'setitem_undeclared') and len(g) == 0:
                 continue
-            if p in ('append', 'insert', 'extend', 'iadd', 'append_undeclared', 'extend_undeclared', 'insert_negative', 'insert_beyond_end') and len(g) >= 2:
+            if p in ('append', 'insert', 'extend', 'iadd', 'append_undeclared', 'extend_undeclared', 'insert_negative', 'insert_beyond_end',
+                     'extend_generator', 'iadd_iterator') and len(g) >= 2:
                 continue
             for k in KINDS:
                 ops.append((p, k))
@@ -259,6 +262,10 @@ class GateSpec(H.Spec):
             g += [{'d': val}]
         elif p == 'setitem':
             g[0] = {'c': val}
+        elif p == 'extend_generator':
+            g.extend(r for r in [{'c': 1.0}, {'c': val}])
+        elif p == 'iadd_iterator':
+            g += iter([{'d': val}])
         elif p == 'insert_negative':
             g.insert(-1, {'c': val})
         elif p == 'insert_beyond_end':
@@ -298,10 +305,10 @@ class GateSpec(H.Spec):
                 # the grid now holds mislabelled data: the writers must still refuse it
                 self.writers(g, v, after, False, st, sig, case)
                 return False
-            if after != before and not (p in ('extend', 'extend_undeclared')):
+            if after != before and not (p in ('extend', 'extend_undeclared', 'extend_generator')):
                 st.fail('refused-store-left-3.0-only-value-in-grid', sig, case, {'op': list(op), 'reachable_3.0_data': after})
                 return False
-            if [id(r) for r in g] != rows_before and p not in ('extend', 'extend_undeclared', 'iadd'):
+            if [id(r) for r in g] != rows_before and p not in ('extend', 'extend_undeclared', 'iadd', 'extend_generator', 'iadd_iterator'):
                 st.fail('refused-store-changed-the-rows-of-the-grid', sig, case, {'op': list(op), 'rows_before': len(rows_before), 'rows_after': len(g)})
                 return False
         else:
